@@ -125,18 +125,18 @@ def run(run, tier, replay):
             # 1. exhaustive model checking; the Gen_ configs check the same invariants on the unreduced
             #    state space and print every behaviour
             jobs["gen"] = ex.submit(_gen, "Gen_IoHelpers", "Gen_IoHelpers.cfg" if quick else "Gen_IoHelpers_thorough.cfg",
-                                    pa, counts, workers=4, timeout=170 if quick else 1500)
+                                    pa, counts, workers=4, timeout=900 if quick else 1500)
             jobs["live"] = ex.submit(vlib.tlc, "IoHelpers", "MC_IoHelpers_live.cfg" if quick else "MC_IoHelpers_live_thorough.cfg",
-                                     workers=w, timeout=170 if quick else 1500, coverage=False)
+                                     workers=w, timeout=900 if quick else 1500, coverage=False)
             jobs["genmem"] = ex.submit(_gen, "Gen_IoHelpersMem", "Gen_IoHelpersMem.cfg", pm, counts_mem, workers=w,
-                                       timeout=170 if quick else 900)
-            jobs["strict"] = ex.submit(vlib.tlc, "IoHelpers", "MC_IoHelpers_strict.cfg", workers=1, timeout=170,
+                                       timeout=900)
+            jobs["strict"] = ex.submit(vlib.tlc, "IoHelpers", "MC_IoHelpers_strict.cfg", workers=1, timeout=900,
                                        coverage=False)
             # controls for the repaired defects: with the fixes switched off (Fixed = {}) the old behaviour
             # must violate the property
-            jobs["unfixed"] = ex.submit(vlib.tlc, "IoHelpers", "MC_IoHelpers_unfixed.cfg", workers=1, timeout=170,
+            jobs["unfixed"] = ex.submit(vlib.tlc, "IoHelpers", "MC_IoHelpers_unfixed.cfg", workers=1, timeout=900,
                                         coverage=False)
-            jobs["strictmem"] = ex.submit(vlib.tlc, "IoHelpersMem", "MC_IoHelpersMem_unfixed.cfg", workers=1, timeout=170,
+            jobs["strictmem"] = ex.submit(vlib.tlc, "IoHelpersMem", "MC_IoHelpersMem_unfixed.cfg", workers=1, timeout=900,
                                           coverage=False)
             if not quick:
                 jobs["mc"] = ex.submit(vlib.tlc, "IoHelpers", "MC_IoHelpers_thorough.cfg", workers=4, timeout=1500)
@@ -194,11 +194,11 @@ def run(run, tier, replay):
 
         # every helper must have produced behaviours (non-vacuity of the generation)
         import re
-        cfg_txt = open(os.path.join(vlib.SPEC, "Gen_IoHelpers.cfg")).read()
-        helpers = re.findall(r'"(\w+)"', cfg_txt)
-        missing = [h for h in helpers if not counts.get(h)]
-        cfgm = re.findall(r'"(\w+)"', open(os.path.join(vlib.SPEC, "Gen_IoHelpersMem.cfg")).read())
-        missing += [h for h in cfgm if not counts_mem.get(h)]
+        def helpers_of(cfg):
+            line = [l for l in open(os.path.join(vlib.SPEC, cfg)) if l.strip().startswith("Helpers")][0]
+            return re.findall(r'"(\w+)"', line)
+        missing = [h for h in helpers_of("Gen_IoHelpers.cfg") if not counts.get(h)]
+        missing += [h for h in helpers_of("Gen_IoHelpersMem.cfg") if not counts_mem.get(h)]
         if missing:
             raise vlib.ToolError("no behaviour generated for: %s" % missing)
         run.note("behaviours_per_helper", dict(sorted({**counts, **counts_mem}.items())))
